@@ -1,14 +1,16 @@
 (* goimpl model runner (protocol part of C02/C04): trace acceptance against the extracted LTS of
    Model/CopyImpl.v.  One case per line:
-     <id> J<base64 case> G <K> <ext> <N> <succ_0> ... <succ_N-1> R <roots> P <initial destination content> E <event> ...
+     <id> J<base64 case> G <K> <ext> <N> <succ_0> ... <succ_N-1> R <roots> P <initial destination> E <event> ...
    Events (recorded by the harness around the real syncutil.Go / LimitedRegion / Tracker):
      go:<ptid>:<fid>  start:<tid>:<fid>:<node>  try:<tid>:<0|1>  ex:<tid>:<t|f|e>  find:<tid>:<1|e>
      end:<tid>  wait:<tid>:<m>:<ok|cancel|uncommitted>  startok:<tid>  startfail:<tid>
-     push:<tid>:<1|e|s>  (s = stored, then failed)  ret:<tid>:<0|1>  goret:<fid>:<0|1>  cancel
+     push:<tid>:<1|e>  ret:<tid>:<0|1>  goret:<fid>:<0|1>  cancel
    Steps inside syncutil.Go are not observable; they are inferred: an item is dispatched (LDispatchAcq)
    at the latest when it or a later item of its frame starts; an item that never starts was skipped
    (LChildSkip, as soon as its frame is cancelled in the model) or never dispatched (LDispatchFail at
-   the return of Go).  Output: ACCEPT ret=<0|1> done=<nodes>   or   REJECT <event index> <event> <why>. *)
+   the return of Go).  The LTS is run WITH its destination (Model/CopyImplDst.v: Exists must answer by the
+   destination content, a successful push stores the node); closed = the destination was link-closed after every step.
+   Output: ACCEPT ret=<0|1> done=<nodes> dst=<nodes> closed=<1|0>   or   REJECT <event index> <event> <why>. *)
 exception Reject of string
 exception RejectAt of int * string * string
 
@@ -16,18 +18,21 @@ let csv_ints s = if s = "-" then [] else List.map int_of_string (String.split_on
 
 type finfo = { items : int array; mtask : int array; started : bool array; mutable disp : int; mframe : int }
 
-let process id k ext succs roots present events =
+let process id k ext succs roots pres events =
   let succ_arr = Array.of_list (List.map (fun s -> List.map nat_of_int (csv_ints s)) succs) in
   let succ (x : nat) = let i = int_of_nat x in if i < Array.length succ_arr then succ_arr.(i) else [] in
-  let st = ref (dinit (nat_of_int k) ext (List.map nat_of_int roots) (dst_of_list (List.map nat_of_int present))) in
+  (* the protocol state with the destination (Model/CopyImplDst.v); !st is its protocol component *)
+  let dst = ref (dinit (nat_of_int k) ext (List.map nat_of_int roots) (List.map nat_of_int pres)) in
+  let st = ref (!dst).ds in
+  let closed = ref (dclosedb succ (!dst).dd) in
   let nsteps = ref 0 in
   let maxhold = ref 0 in
-  let do_dstep what dl =
-    match dstep succ !st dl with
-    | Some x' -> st := x'; incr nsteps;
-      let h = int_of_nat (holders x'.d_st) in if h > !maxhold then maxhold := h
+  let do_step what l =
+    match dstep succ !dst (DL l) with
+    | Some x' -> let s' = x'.ds in dst := x'; st := s'; incr nsteps;
+      if not (dclosedb succ x'.dd) then closed := false;
+      let h = int_of_nat (holders s') in if h > !maxhold then maxhold := h
     | None -> raise (Reject what) in
-  let do_step what l = do_dstep what (DL l) in
   let tmap : (int, int) Hashtbl.t = Hashtbl.create 16 in
   let fmap : (int, finfo) Hashtbl.t = Hashtbl.create 16 in
   let ghosts = ref [] in
@@ -45,8 +50,8 @@ let process id k ext succs roots present events =
   let task t = try Hashtbl.find tmap t with Not_found -> raise (Reject "unknown task") in
   let frame f = try Hashtbl.find fmap f with Not_found -> raise (Reject "unknown frame") in
   let mt t = nat_of_int (task t) in
-  let tk i = (!st).d_st.tasks (nat_of_int i) in
-  let fr i = (!st).d_st.frames (nat_of_int i) in
+  let tk i = (!st).tasks (nat_of_int i) in
+  let fr i = (!st).frames (nat_of_int i) in
   let sweep () =
     ghosts := List.filter (fun g ->
         if (fr (int_of_nat (tk g).t_frame)).f_cancelled then begin do_step "skip of a never-started item" (LChildSkip (nat_of_int g)); false end
@@ -67,7 +72,7 @@ let process id k ext succs roots present events =
            let f = int_of_string f and p = int_of_string p in
            if p < 0 then new_frame f 0
            else begin
-             let mf = int_of_nat (!st).d_st.nframes in
+             let mf = int_of_nat (!st).nframes in
              do_step "Go not enabled" (LGo (mt p)); new_frame f mf end
          | ["start"; t; f; n] ->
            let t = int_of_string t and f = int_of_string f and n = int_of_string n in
@@ -76,7 +81,7 @@ let process id k ext succs roots present events =
            Array.iteri (fun i x -> if !j < 0 && x = n && not fi.started.(i) && (i >= fi.disp || fi.mtask.(i) >= 0) && will_start f fi i then j := i) fi.items;
            if !j < 0 then raise (Reject "start of an item that is not in the frame");
            for i = fi.disp to !j do
-             let id = int_of_nat (!st).d_st.ntasks in
+             let id = int_of_nat (!st).ntasks in
              do_step "dispatch: no free permit in the model (more than K permits in use)" (LDispatchAcq (nat_of_int fi.mframe));
              fi.mtask.(i) <- id;
              if not (will_start f fi i) then ghosts := id :: !ghosts
@@ -92,7 +97,7 @@ let process id k ext succs roots present events =
             | TExists, "1" | TFin false, "0" -> ()
             | _ -> raise (Reject "TryCommit result differs from the model tracker"))
          | ["ex"; t; r] ->
-           do_step "Exists not enabled, or its answer differs from the destination of the model" (LExists (mt (int_of_string t), (match r with "t" -> ExTrue | "f" -> ExFalse | _ -> ExFail)))
+           do_step "Exists not enabled" (LExists (mt (int_of_string t), (match r with "t" -> ExTrue | "f" -> ExFalse | _ -> ExFail)))
          | ["find"; t; r] -> do_step "FindSuccessors not enabled" (LFind (mt (int_of_string t), r = "1"))
          | ["end"; t] -> do_step "End not enabled" (LEnd (mt (int_of_string t)))
          | ["wait"; t; m; r] ->
@@ -102,13 +107,12 @@ let process id k ext succs roots present events =
             | _ -> raise (Reject "the model task is not waiting for this successor"));
            (match r with
             | "ok" ->
-              if not (is_done ((!st).d_st.tracker (nat_of_int m))) then raise (Reject "done channel observed closed but the node is not Done in the model");
+              if not (is_done ((!st).tracker (nat_of_int m))) then raise (Reject "done channel observed closed but the node is not Done in the model");
               do_step "wait" (LWaitDone (mt t))
             | "uncommitted" -> do_step "wait" (LWaitDone (mt t)); expect_fin t true
             | _ -> do_step "ctx.Done observed but the frame is not cancelled in the model" (LWaitCancel (mt t)))
          | ["startok"; t] -> do_step "Start: no free permit in the model (more than K permits in use)" (LStart (mt (int_of_string t)))
          | ["startfail"; t] -> do_step "Start failed but the frame is not cancelled in the model" (LStartFail (mt (int_of_string t)))
-         | ["push"; t; "s"] -> do_dstep "push not enabled" (DPushStoredFail (mt (int_of_string t)))
          | ["push"; t; r] -> do_step "push not enabled" (LPush (mt (int_of_string t), r = "1"))
          | ["ret"; t; e] -> expect_fin (int_of_string t) (e = "1")
          | ["goret"; f; e] ->
@@ -130,17 +134,17 @@ let process id k ext succs roots present events =
         sweep ()
       with Reject why -> raise (RejectAt (idx, String.concat ":" (Array.to_list e), String.concat "_" (String.split_on_char ' ' why)))
     ) evs;
-  if not (is_final (!st).d_st) then raise (Reject "end trace-ended the-model-is-not-final");
+  if not (is_final !st) then raise (Reject "end trace-ended the-model-is-not-final");
   if !maxhold > k then raise (Reject "end holders more-than-K-holders");
   let n = Array.length succ_arr in
   let dn = ref [] in
-  for i = n - 1 downto 0 do if is_done ((!st).d_st.tracker (nat_of_int i)) then dn := string_of_int i :: !dn done;
-  let ds = ref [] in
-  for i = n - 1 downto 0 do if (!st).d_dst (nat_of_int i) then ds := string_of_int i :: !ds done;
-  Printf.printf "%s ACCEPT ret=%d done=%s dst=%s\n" id
-    (match result (!st).d_st with Some true -> 1 | _ -> 0)
+  for i = n - 1 downto 0 do if is_done ((!st).tracker (nat_of_int i)) then dn := string_of_int i :: !dn done;
+  let dl = List.sort_uniq compare (List.map int_of_nat (!dst).dd) in
+  Printf.printf "%s ACCEPT ret=%d done=%s dst=%s closed=%d\n" id
+    (match result !st with Some true -> 1 | _ -> 0)
     (if !dn = [] then "-" else String.concat "," !dn)
-    (if !ds = [] then "-" else String.concat "," !ds)
+    (if dl = [] then "-" else String.concat "," (List.map string_of_int dl))
+    (if !closed then 1 else 0)
 
 let () =
   iter_lines (fun l ->
@@ -150,7 +154,7 @@ let () =
         let rec take i l acc = if i = 0 then (List.rev acc, l) else match l with x :: r -> take (i - 1) r (x :: acc) | [] -> failwith "short" in
         let succs, rest = take n rest [] in
         (match rest with
-         | "R" :: roots :: "P" :: present :: "E" :: events ->
+         | "R" :: roots :: "P" :: pres :: "E" :: events ->
            (* The value returned by syncutil.Go (context.Cause) is read before the harness can log
               `goret`.  When an ancestor context is cancelled in between, the log shows the cancellation
               first and a nil result afterwards.  Such a `goret:<f>:0` is moved back, one event at a time,
@@ -162,7 +166,7 @@ let () =
            let raced = ref false in
            let evs = Array.of_list events in
            let rec attempt tries =
-             try process id (int_of_string k) (ext = "1") succs (csv_ints roots) (csv_ints present) (Array.to_list evs)
+             try process id (int_of_string k) (ext = "1") succs (csv_ints roots) (csv_ints pres) (Array.to_list evs)
              with
              | RejectAt (i, ev, why) when tries > 0 && i > 0 && why = "return_value_of_Go_differs_from_the_model"
                                           && String.length ev > 6 && String.sub ev 0 6 = "goret:" && ev.[String.length ev - 1] = '0' ->
